@@ -246,7 +246,7 @@ fn numeric_family(ctx: &mut Ctx, ps: &mut Parsers) {
             text = format!(">> servings: {}\n{text}", ctx.rng.pick(&["3", "7", "3|6", "12"]));
         }
         let (p, q) = (ctx.rng.range(1, 12) as f64, ctx.rng.range(1, 12) as f64);
-        let factors = json!([p / q, *ctx.rng.pick(&[10.0 / 3.0, 1.0 / 7.0, 0.1, 1e-6, 1e6, 4e9, 1e15]), ctx.rng.log_uniform(1e-3, 1e3)]);
+        let factors = json!([p / q, *ctx.rng.pick(&[10.0 / 3.0, 1.0 / 7.0, 0.1, 1e-6, 1e6, 4e9, 1e15, 0.0, 1e-320, f64::MIN_POSITIVE, 1e300]), ctx.rng.log_uniform(1e-3, 1e3)]);
         check_case(ctx, ps, &Case::new("numeric", text, all, "bundled").with(json!({"factors": factors})));
         ctx.count("inputs_numeric_corners");
     }
@@ -257,6 +257,7 @@ const FRONT: &[&str] = &[
     "a: 1\nb: 2.5\nc: true\nd: ~\ne: 'str'\nf: [1, [2, [3]]]\ng: -7\nh: 1e3\ni: 0x10\nj: 1_000",
     "time: {prep: 10, cook: 1h}\nauthor: {name: A, url: 'https://x.y'}",
     "big: 18446744073709551615\nneg: -9223372036854775808\nfloat: 0.1\nsmall: 5e-324",
+    "\"1\": starter\n\"2024\": x\n'true': y\n\"null\": z\n\"1.5\": w\n\"~\": v\n\"0x10\": u\n\".inf\": t",
     "1: a\n2: b",
     "true: a",
     "a: !tag b",
@@ -271,6 +272,22 @@ pub fn run(ctx: &mut Ctx) {
     let mut ps = Parsers::new();
     let all = Extensions::all().bits();
     if ctx.shard == 0 {
+        // string keys that read like numbers / booleans / null, through the `>>` syntax (always strings)
+        for k in ["2024", "1", "true", "null", "1.5", "~", "0x10", "-7", "1e3", "yes", "off"] {
+            let input = format!(">> {k}: best vintage so far\n>> author: me\n\nOpen the @wine{{1%bottle}}.\n");
+            check_case(ctx, &mut ps, &Case::new("front_matter", input, all, "bundled"));
+            ctx.count("inputs_front_matter");
+        }
+        // a recipe ingredient defined with the recipe modifier and referenced later; every modifier combination that
+        // a valid recipe can hold
+        for input in [
+            "Prepare the @@pizza dough{1%kg} the day before.\n\nStretch the @&pizza dough{} on the #tray.\n",
+            "@-a{1} @?b{2} @@c{3} @-?@d{} @&a @&b @&c @&d{1} #-p #?q #&p #&q{2}\n",
+            ">> [mode]: components\n@x{1} #y\n>> [mode]: steps\n@x @+z{2} #y #+w\n",
+        ] {
+            check_case(ctx, &mut ps, &Case::new("modifiers", input, all, "bundled"));
+            ctx.count("inputs_modifier_combinations");
+        }
         for f in FRONT {
             for body in ["", "@a{1%kg} and #b{2} ~{5%min}", "= s\n@x{1 1/2%cup} @&x{2}"] {
                 let input = format!("---\n{f}\n---\n{body}\n");
